@@ -12,6 +12,9 @@ import (
 func init() { scenarios["C17"] = scenarioC17 }
 
 func scenarioC17(rc *RunCtx) *Violation {
+	if rc.G.n(6) == 0 {
+		return scenarioC17CLI(rc)
+	}
 	g := rc.G
 	p := GenProject(g, "/p")
 	o := GenOptions(g, p)
